@@ -353,4 +353,63 @@ theorem split_exact (sT bT : Nat) (hpos : 0 < sT + bT) (hle : sT + bT ≤ D) :
     omega
   omega
 
+
+/-- the split of arrived coins `act ≥ tot` (unsolicited transfers on top of the expected total, all
+    within the envelope): neither token side receives less than was undelegated for it -/
+theorem split_surplus (sT bT act : Nat) (hpos : 0 < sT + bT) (hge : sT + bT ≤ act) (hle : act ≤ D) :
+    bT ≤ mulDec act (D - fromRatio sT (sT + bT)) ∧
+    sT ≤ act - mulDec act (D - fromRatio sT (sT + bT)) := by
+  unfold mulDec fromRatio
+  have hD : 0 < D := D_pos
+  have h1 : sT * D / (sT + bT) * (sT + bT) ≤ sT * D := Nat.div_mul_le_self _ _
+  have h2 := lt_div_add_one_mul (sT * D) (sT + bT) hpos
+  have hq : sT * D / (sT + bT) ≤ D := by
+    apply Nat.div_le_of_le_mul
+    exact Nat.mul_le_mul_right D (by omega)
+  generalize sT * D / (sT + bT) = q at *
+  obtain ⟨r, hr⟩ : ∃ r, D = q + r := ⟨D - q, by omega⟩
+  have e : D - q = r := by omega
+  rw [e]
+  obtain ⟨x, hx⟩ : ∃ x, act = sT + bT + x := ⟨act - (sT + bT), by omega⟩
+  -- tot·r bounds, as in split_exact
+  have lo : bT * D ≤ (sT + bT) * r := by
+    have e1 : (sT + bT) * D = (sT + bT) * q + (sT + bT) * r := by rw [hr]; ring
+    have e2 : (sT + bT) * D = sT * D + bT * D := by ring
+    have e3 : q * (sT + bT) = (sT + bT) * q := by ring
+    omega
+  have hi : (sT + bT) * r < bT * D + (sT + bT) := by
+    have e1 : (sT + bT) * D = (sT + bT) * q + (sT + bT) * r := by rw [hr]; ring
+    have e2 : (sT + bT) * D = sT * D + bT * D := by ring
+    have e3 : (q + 1) * (sT + bT) = (sT + bT) * q + (sT + bT) := by ring
+    omega
+  constructor
+  · apply (Nat.le_div_iff_mul_le hD).mpr
+    have : (sT + bT) * r ≤ act * r := Nat.mul_le_mul_right r hge
+    omega
+  · -- m := act·r/D ;  tot·m·D ≤ tot·act·r < act·(bT·D + tot) ≤ tot·D·(act − sT + 1)
+    have hm : act * r / D * D ≤ act * r := Nat.div_mul_le_self _ _
+    generalize act * r / D = m at *
+    have key : (sT + bT) * (m * D) < (sT + bT) * D * (act - sT + 1) := by
+      have a1 : (sT + bT) * (m * D) ≤ (sT + bT) * (act * r) := Nat.mul_le_mul_left _ hm
+      have a2 : act * ((sT + bT) * r) < act * (bT * D + (sT + bT)) :=
+        Nat.mul_lt_mul_of_pos_left hi (by omega)
+      have a3 : (sT + bT) * (act * r) = act * ((sT + bT) * r) := by ring
+      have hsub : act - sT + 1 = bT + x + 1 := by omega
+      rw [hsub]
+      rw [hx] at a1 a2 a3
+      have hDle : sT + bT + x ≤ D := by omega
+      have k1 : (sT + bT) * (sT + bT + x) ≤ (sT + bT) * D := Nat.mul_le_mul_left _ hDle
+      -- expand everything to monomials
+      nlinarith [k1, a1, a2, a3, Nat.zero_le (sT * D * x)]
+    have : m * D < D * (act - sT + 1) := by
+      have := Nat.lt_of_mul_lt_mul_left (a := sT + bT) (by
+        have e1 : (sT + bT) * D * (act - sT + 1) = (sT + bT) * (D * (act - sT + 1)) := by ring
+        rw [e1] at key; exact key)
+      exact this
+    have : m < act - sT + 1 := by
+      have e1 : D * (act - sT + 1) = (act - sT + 1) * D := by ring
+      rw [e1] at this
+      exact Nat.lt_of_mul_lt_mul_right this
+    omega
+
 end Krp
